@@ -8,6 +8,8 @@ IDS="$@"; [ -z "$IDS" ] && IDS=$(cat "$VERIF/tools/claimed.txt")
 for ID in $IDS; do
   P=$(ls "$VERIF"/mutants/$ID-*.patch 2>/dev/null)
   S=$(ls "$VERIF"/seeded/$ID-seed*/patch.diff 2>/dev/null)
+  [ "${MUT_ONLY:-}" = seeds ] && P=""
+  [ "${MUT_ONLY:-}" = own ] && S=""
   [ -z "$P$S" ] && continue
   MUT_TESTS=${MUT_TESTS:-1} "$VERIF/run-mutants" "$ID" $P $S 2>&1 | grep '^MUTANT' | while read -r line; do
     name=$(echo "$line" | sed -E 's/^MUTANT ([^:]+):.*/\1/')
